@@ -128,18 +128,21 @@ theorem rbLoop_eq (start : Key) : ∀ (i : Nat) (bs zs : List Bool), bs.length =
 
 /-- **`range_bounds` is total and denotes the prefix range** -/
 theorem rangeBounds_spec (bs : List Bool) (hb : bs.length ≤ KEY_BITS) :
-    ∃ start stop, rangeBounds (bs ++ List.replicate (KEY_BITS - bs.length) false) bs.length = .ok (start, stop) ∧
-      ∀ k : Key, k.length = KEY_BITS → (inRange start stop k = true ↔ bs.isPrefixOf k = true) := by
+    ∃ stop, rangeBounds (bs ++ List.replicate (KEY_BITS - bs.length) false) bs.length =
+        .ok (bs ++ List.replicate (KEY_BITS - bs.length) false, stop) ∧
+      ∀ k : Key, k.length = KEY_BITS →
+        (inRange (bs ++ List.replicate (KEY_BITS - bs.length) false) stop k = true ↔ bs.isPrefixOf k = true) := by
   unfold rangeBounds
   by_cases h0 : bs.length = 0
   · have : bs = [] := List.length_eq_zero_iff.mp h0
     subst this
-    refine ⟨zeroKey, none, by simp, ?_⟩
+    refine ⟨none, by simp [zeroKey], ?_⟩
     intro k hk
-    simp only [inRange, List.isPrefixOf, Bool.and_true, iff_true, Bool.not_eq_true']
+    simp only [inRange, List.isPrefixOf, Bool.and_true, iff_true, Bool.not_eq_true', List.nil_append, List.length_nil,
+      Nat.sub_zero]
     exact bitsLt_zeros k _ hk
   · rw [if_neg h0, rbLoop_eq _ (bs.length - 1) bs _ (by omega)]
-    refine ⟨_, _, rfl, ?_⟩
+    refine ⟨_, rfl, ?_⟩
     intro k hk
     have hz : ∀ z ∈ List.replicate (KEY_BITS - bs.length) false, z = false := by
       intro z hz; exact (List.mem_replicate.1 hz).2
@@ -148,5 +151,18 @@ theorem rangeBounds_spec (bs : List Bool) (hb : bs.length ≤ KEY_BITS) :
     rw [← range_iff_prefix bs _ k hz hkl]
     simp only [inRange, Bool.and_eq_true, Bool.not_eq_true']
     cases incr bs <;> simp
+
+/-- the start of the range lies in the range -/
+theorem rangeBounds_start_lt (bs : List Bool) (hb : bs.length ≤ KEY_BITS) (stop : Option Key)
+    (h : ∀ k : Key, k.length = KEY_BITS →
+      (inRange (bs ++ List.replicate (KEY_BITS - bs.length) false) stop k = true ↔ bs.isPrefixOf k = true)) :
+    beforeStop stop (bs ++ List.replicate (KEY_BITS - bs.length) false) = true := by
+  have := (h (bs ++ List.replicate (KEY_BITS - bs.length) false) (by rw [List.length_append, List.length_replicate]; omega)).2
+    (by rw [List.isPrefixOf_iff_prefix]; exact List.prefix_append _ _)
+  unfold inRange at this
+  simp only [Bool.and_eq_true] at this
+  cases stop with
+  | none => rfl
+  | some e => exact this.2
 
 end Nomt.Seek
